@@ -16,7 +16,7 @@ def configs(tier, seed):
     # "a nested body / its callees run only with the enclosing body" is this property as well
     from . import c12
 
-    return systematic_configs(SCHEDULERS) + c12.deep_configs(tier) + batch_configs(tier, seed, 40, 400, 12 if tier == "quick" else 25, OPTS, SCHEDULERS)
+    return systematic_configs(SCHEDULERS, family="relations") + systematic_configs(SCHEDULERS) + c12.deep_configs(tier) + batch_configs(tier, seed, 40, 400, 12 if tier == "quick" else 25, OPTS, SCHEDULERS)
 
 
 def run(cfg, ctx):
